@@ -204,6 +204,9 @@ enum Ev {
     Data(Vec<u8>),
     ReadEnd(&'static str),
     Done(bool),
+    /// a request of the RST prelude reached the application (legitimate when the reset came after
+    /// the server had looked at the socket); true = it carried a peer address
+    Gone(bool),
 }
 
 /// yields the pieces, but returns an I/O error once `fail_after` bytes were produced
@@ -286,6 +289,12 @@ fn app_thread(server: std::sync::Arc<Server>, script: Vec<Action>, tx: mpsc::Sen
             Ok(rq) => rq,
             Err(_) => return,
         };
+        if rq.url().starts_with("/gone/") {
+            // a client of the RST prelude, not part of the conversation under test
+            let _ = tx.send(Ev::Gone(rq.remote_addr().is_some()));
+            let _ = rq.respond(Response::from_string("gone"));
+            continue;
+        }
         let a = if script.is_empty() {
             Action { as_reader: 0, read_total: 0, buf: 1, delay_ms: 0, fin: Finish::Drop, zero_read: false }
         } else {
@@ -475,6 +484,29 @@ impl Default for Timing {
 }
 
 /// Runs one case and returns the protocol line (case recipe + observations).
+/// number of clients that, ahead of the next TCP case, connect to its server, send one complete
+/// request and abort the connection at once (RST); consumed by `run_case`
+pub static RST_FIRST: std::sync::atomic::AtomicUsize = std::sync::atomic::AtomicUsize::new(0);
+
+#[repr(C)]
+struct Linger {
+    l_onoff: i32,
+    l_linger: i32,
+}
+
+extern "C" {
+    fn setsockopt(fd: i32, level: i32, name: i32, val: *const Linger, len: u32) -> i32;
+}
+
+/// SO_LINGER with a zero timeout: `close` sends RST instead of FIN (Linux constants)
+pub fn abort_on_close(s: &TcpStream) {
+    use std::os::unix::io::AsRawFd;
+    let l = Linger { l_onoff: 1, l_linger: 0 };
+    unsafe {
+        setsockopt(s.as_raw_fd(), 1, 13, &l, std::mem::size_of::<Linger>() as u32);
+    }
+}
+
 pub fn run_case(id: u64, c: &ConnCase, tmpdir: &str, tm: &Timing) -> String {
     let sock_path = format!("{}/conn-{}-{}.sock", tmpdir, std::process::id(), id);
     let server = if c.unix {
@@ -484,6 +516,18 @@ pub fn run_case(id: u64, c: &ConnCase, tmpdir: &str, tm: &Timing) -> String {
         Server::http("127.0.0.1:0").expect("tcp server")
     };
     let server = std::sync::Arc::new(server);
+    let rst_first = RST_FIRST.swap(0, std::sync::atomic::Ordering::SeqCst);
+    if rst_first > 0 && !c.unix {
+        let ip = server.server_addr().to_ip().unwrap();
+        for k in 0..rst_first {
+            if let Ok(mut s) = TcpStream::connect(ip) {
+                let _ = write!(s, "GET /gone/{} HTTP/1.1\r\nHost: gone\r\n\r\n", k);
+                abort_on_close(&s);
+                drop(s);
+            }
+        }
+        std::thread::sleep(Duration::from_millis(30));
+    }
     let (tx, rx) = mpsc::channel();
     let app = {
         let s = server.clone();
@@ -606,6 +650,7 @@ pub fn run_case(id: u64, c: &ConnCase, tmpdir: &str, tm: &Timing) -> String {
     let mut results: Vec<String> = vec![];
     let mut cur: Option<(String, Vec<u8>, &'static str)> = None; // head fields, body, readend
     let mut hang = false;
+    let (mut gone, mut gone_noaddr) = (0usize, 0usize);
     let t_collect = Instant::now();
     let mut app_done = false;
     loop {
@@ -632,6 +677,12 @@ pub fn run_case(id: u64, c: &ConnCase, tmpdir: &str, tm: &Timing) -> String {
                 }
             }
             Ok(Ev::Done(ok)) => results.push(if ok { "ok".into() } else { "err".into() }),
+            Ok(Ev::Gone(with_addr)) => {
+                gone += 1;
+                if !with_addr {
+                    gone_noaddr += 1;
+                }
+            }
             Err(mpsc::RecvTimeoutError::Disconnected) => {
                 app_done = true;
                 break;
@@ -664,7 +715,7 @@ pub fn run_case(id: u64, c: &ConnCase, tmpdir: &str, tm: &Timing) -> String {
         None => String::new(),
     };
     format!(
-        "conn id={} bytes={} mode={} hold={} segs={} unix={} script={} {} | delivered={} wire={} eof={} results={} hang={} dates={}{}",
+        "conn id={} bytes={} mode={} hold={} segs={} unix={} script={} {} | delivered={} wire={} eof={} results={} hang={} dates={}{}{}",
         id,
         hex(&c.bytes),
         if c.mode == Mode::Open { "open" } else { "halfclose" },
@@ -679,6 +730,7 @@ pub fn run_case(id: u64, c: &ConnCase, tmpdir: &str, tm: &Timing) -> String {
         results.join(","),
         if hang { 1 } else { 0 },
         if dates_ok { "ok" } else { "bad" },
-        holdfield
+        holdfield,
+        if rst_first > 0 { format!(" rst={} gone={} gone_noaddr={}", rst_first, gone, gone_noaddr) } else { String::new() }
     )
 }
